@@ -146,3 +146,62 @@ Proof.
   specialize (G Hpos).
   change (v3subs (v3muls size (/ 2)) round) with (mkV3 (sx - round) (sy - round) (sz - round)). lra.
 Qed.
+
+(* ------------------------------------------------------------ Cylinder3D / capsule in lb2 *)
+Lemma Rabs_sq (a : R) : Rabs a * Rabs a = a * a.
+Proof. unfold Rabs; destruct (Rcase_abs a); ring. Qed.
+
+(* the square [-R,R]^2 contains the disc of radius R: it is at most as far away *)
+Lemma square_le_disc (x y R0 : R) : 0 <= R0 ->
+  pos (Rabs x - R0) * pos (Rabs x - R0) + pos (Rabs y - R0) * pos (Rabs y - R0)
+  <= pos (sqrt (x * x + y * y) - R0) * pos (sqrt (x * x + y * y) - R0).
+Proof.
+  intros HR. set (rho := sqrt (x * x + y * y)).
+  pose proof (abs_le_len2_x (mkV2 x y)) as X. pose proof (abs_le_len2_y (mkV2 x y)) as Y.
+  unfold len2 in X, Y; cbn [vx vy] in X, Y. fold rho in X, Y.
+  destruct (Rle_dec rho R0) as [Hin|Hout].
+  - unfold pos. rewrite !Rmax_left by lra. lra.
+  - destruct (ball2_near R0 (mkV2 x y) HR) as (q & Hq & Hd); [unfold len2; cbn [vx vy]; fold rho; lra|].
+    unfold len2 in Hd; cbn [vx vy] in Hd. fold rho in Hd.
+    pose proof (abs_le_len2_x q) as Qx. pose proof (abs_le_len2_y q) as Qy.
+    pose proof (abs_le_len2_x (sub2 (mkV2 x y) q)) as Dx. pose proof (abs_le_len2_y (sub2 (mkV2 x y) q)) as Dy.
+    cbn [sub2 vx vy] in Dx, Dy. pose proof (len2_sq (sub2 (mkV2 x y) q)) as SQ. cbn [sub2 vx vy] in SQ.
+    unfold dist2 in Hd. rewrite Hd in Dx, Dy, SQ.
+    pose proof (Rabs_triang (x - vx q) (vx q)) as T1. replace (x - vx q + vx q) with x in T1 by ring.
+    pose proof (Rabs_triang (y - vy q) (vy q)) as T2. replace (y - vy q + vy q) with y in T2 by ring.
+    assert (A1 : pos (Rabs x - R0) <= Rabs (x - vx q)) by (unfold pos; apply Rmax_lub; [apply Rabs_pos | lra]).
+    assert (A2 : pos (Rabs y - R0) <= Rabs (y - vy q)) by (unfold pos; apply Rmax_lub; [apply Rabs_pos | lra]).
+    pose proof (pos_nonneg (Rabs x - R0)). pose proof (pos_nonneg (Rabs y - R0)).
+    pose proof (Rabs_sq (x - vx q)) as E1. pose proof (Rabs_sq (y - vy q)) as E2.
+    pose proof (Rabs_pos (x - vx q)). pose proof (Rabs_pos (y - vy q)).
+    unfold pos at 5 6. rewrite !Rmax_right by lra. nra.
+Qed.
+
+Theorem cylinder_lb2 h r round o : @k_cylinder ROps h r round = Some o -> lb2_3 o.
+Proof.
+  intros H. unfold k_cylinder in H. kchecks H. cbn in K, K0, K1, K2. bfalse.
+  apply some_inj in H. rewrite <- H. clear H.
+  split; cbn [bb3 ev3]; [unfold ordered3; cbn; lra|].
+  intros p. match goal with |- _ \/ in_box3 ?b p => destruct (classic_in_box3 b p) as [Hin|Hout]; [now right | left];
+    pose proof (boxdist3_pos b p Hout) as HF; revert HF; unfold boxdist3 end.
+  cbn [b3min b3max v3neg wx wy wz]. ropen. rewrite two_eq. rewrite !axd_sym.
+  change (v2len (mkV2 (wx p) (wy p))) with (sqrt (wx p * wx p + wy p * wy p)).
+  set (rho := sqrt (wx p * wx p + wy p * wy p)). assert (Hrho : 0 <= rho) by apply sqrt_pos.
+  pose proof (square_le_disc (wx p) (wy p) r ltac:(lra)) as SD. fold rho in SD.
+  set (ax := pos (Rabs (wx p) - r)) in *. set (ay := pos (Rabs (wy p) - r)) in *. set (az := pos (Rabs (wz p) - h / 2)).
+  intros HF.
+  set (e1 := rho - (r - round)). set (e2 := Rabs (wz p) - (h / 2 - round)).
+  assert (Eb : ax * ax + ay * ay + az * az <= pos (e1 - round) * pos (e1 - round) + pos (e2 - round) * pos (e2 - round)).
+  { unfold e1, e2. replace (rho - (r - round) - round) with (rho - r) by ring.
+    replace (Rabs (wz p) - (h / 2 - round) - round) with (Rabs (wz p) - h / 2) by ring. fold az. lra. }
+  assert (HF' : 0 < sqrt (pos (e1 - round) * pos (e1 - round) + pos (e2 - round) * pos (e2 - round))).
+  { eapply Rlt_le_trans; [exact HF | apply sqrt_le_1_alt, Eb]. }
+  pose proof (rounded_dist2 e1 e2 round ltac:(lra) HF') as RD.
+  pose proof (sqrt_le_1_alt _ _ Eb) as SB.
+  pose proof (sdf_box2d_ge_pos (mkV2 rho (wz p)) (mkV2 (r - round) (h / 2 - round))) as G. cbn [vx vy] in G.
+  rewrite (Rabs_pos_eq rho Hrho) in G. fold e1 e2 in G.
+  assert (Hpos : 0 < e1 \/ 0 < e2).
+  { destruct (Rlt_dec 0 e1); [now left | right]. destruct (Rlt_dec 0 e2); [assumption | exfalso].
+    unfold pos in HF'. rewrite !Rmax_left in HF' by lra. replace (0 * 0 + 0 * 0) with 0 in HF' by ring. rewrite sqrt_0 in HF'. lra. }
+  specialize (G Hpos). replace (h / (1 + 1)) with (h / 2) by field. lra.
+Qed.
